@@ -1,6 +1,10 @@
 //! ad-hoc probe: probe <program.chalk> <budget> <goal>...
 use chalk_verif::drive::*;
 fn main() {
+    std::thread::Builder::new().stack_size(1 << 30).spawn(real_main).unwrap().join().unwrap();
+}
+
+fn real_main() {
     let args: Vec<String> = std::env::args().collect();
     install_panic_hook();
     let text = std::fs::read_to_string(&args[1]).unwrap();
